@@ -65,15 +65,18 @@ impl CachedPlan {
     /// Return true if a set of input and output nodes matches those used to
     /// create the plan.
     pub fn matches(&self, inputs: &[NodeId], outputs: &[NodeId]) -> bool {
-        let input_match = inputs.len() == self.inputs.len()
-            && inputs
-                .iter()
-                .all(|node_id| self.inputs.binary_search(node_id).is_ok());
-        let output_match = outputs.len() == self.outputs.len()
-            && outputs
-                .iter()
-                .all(|node_id| self.outputs.binary_search(node_id).is_ok());
-        input_match && output_match
+        // Compare sorted copies rather than testing membership, so that IDs
+        // which are repeated in `inputs` or `outputs` never match the
+        // (duplicate-free) lists of the cached plan.
+        fn same_ids(sorted_ids: &[NodeId], ids: &[NodeId]) -> bool {
+            if ids.len() != sorted_ids.len() {
+                return false;
+            }
+            let mut ids: SmallVec<[NodeId; 8]> = SmallVec::from_slice(ids);
+            ids.sort();
+            ids.as_slice() == sorted_ids
+        }
+        same_ids(&self.inputs, inputs) && same_ids(&self.outputs, outputs)
     }
 
     /// Return the IDs of the sequence of operators to run.
